@@ -71,6 +71,7 @@ class Backend:
         self.api_calls = 0
         self._pending_pages: dict[str, list[dict]] = {}
         self.on_apply = None  # hook(update, op) called after each applied update (world reactions)
+        self.empty_page_every = 0  # pages option "empty_every": every k-th page fetch answers with no operations but a marker
         self.timer_lag = 0.0  # virtual seconds by which the service is late in acting on a due timer (world option "timer_lag")
         ex = {
             "Id": "exec-op-0",
@@ -212,6 +213,12 @@ class Backend:
             self.oddities.append({"kind": "unknown-marker", "marker": marker})
             return {"Operations": [], "NextMarker": None}
         rest, size, form = ent
+        self._page_calls = getattr(self, "_page_calls", 0) + 1
+        if self.empty_page_every and self._page_calls % self.empty_page_every == 0 and not marker.endswith("~"):
+            # a page may be empty and still carry a marker (a filtered listing): the real page comes with the next call
+            nm = marker + "~"
+            self._pending_pages[nm] = (rest, size, form)
+            return {"Operations": [], "NextMarker": nm}
         page, rest = rest[:size], rest[size:]
         nm = None
         if rest:
